@@ -16,6 +16,7 @@ import (
 	"github.com/google/go-tdx-guest/rtmr"
 	"github.com/google/go-tdx-guest/validate"
 	"github.com/google/go-tdx-guest/verify"
+	"google.golang.org/protobuf/proto"
 
 	"verifharness/core"
 	"verifharness/world"
@@ -39,7 +40,7 @@ func guarded(f func()) (pan any, timedOut bool) {
 }
 
 func C10(c *core.Ctx) {
-	c.Rule = "each public entry point on each untrusted input kind, under recover and a 10 s watchdog: abi.QuoteToProto / verify.RawTdxQuote / validate.RawTdxQuote on all truncations, size-field boundary values and mutations of valid quotes; abi.QuoteToAbiBytes / abi.CheckQuoteV4 / verify.TdxQuote / validate.TdxQuote / verify.ExtractChainFromQuote / verify.SupportedTcbLevelsFromCollateral (on options primed with collateral by an earlier verification) / rtmr.ParseCcelWithTdQuote on every single structural mutation of a valid message (each sub-message nil, each bytes field nil/empty/short/long, RTMR count 0..5, numeric boundaries, nil message); arbitrary collateral / CRL / header responses; the genuine TCB info and QE identity documents with every member and array element (first two and last of each array) replaced by a value of another JSON shape (0, 7, 12, -1, 1.5, 1e400, null, true, strings, [], {}, nested, 20-digit numbers) or deleted, through the pcs JSON decoders and through verification; arbitrary PEM / DER in the certificate chain; arbitrary DER in the SGX extension through pcs.PckCertificateExtensions (random mutations plus every single byte replaced by 0x00 / 0x13 / 0x7f / 0x80 / 0xff). The model's verdict is compared wherever the entry point is modelled. non-trivial = input reaches beyond the first size check; distinct = distinct (entry point, input)"
+	c.Rule = "each public entry point on each untrusted input kind, under recover and a 10 s watchdog: abi.QuoteToProto (and abi.QuoteToAbiBytes on what it returns) / verify.RawTdxQuote / validate.RawTdxQuote on all truncations, size-field boundary values and mutations of valid quotes; abi.QuoteToAbiBytes / abi.CheckQuoteV4 / verify.TdxQuote / validate.TdxQuote / verify.ExtractChainFromQuote / verify.SupportedTcbLevelsFromCollateral (on options primed with collateral by an earlier verification) / rtmr.ParseCcelWithTdQuote on every single structural mutation of a valid message (each sub-message nil, each bytes field nil/empty/short/long, RTMR count 0..5, numeric boundaries, nil message); arbitrary collateral / CRL / header responses; the genuine TCB info and QE identity documents with every member and array element (first two and last of each array) replaced by a value of another JSON shape (0, 7, 12, -1, 1.5, 1e400, null, true, strings, [], {}, nested, 20-digit numbers) or deleted, through the pcs JSON decoders and through verification; the same replacements inside the signed member re-signed by the world's TCB signer (two worlds, one with a TDX module identity in play), through verification and through SupportedTcbLevelsFromCollateral on the options it leaves behind with well-formed and structurally odd messages; arbitrary PEM / DER in the certificate chain; arbitrary DER in the SGX extension through pcs.PckCertificateExtensions (random mutations plus every single byte replaced by 0x00 / 0x13 / 0x7f / 0x80 / 0xff). The model's verdict is compared wherever the entry point is modelled. non-trivial = input reaches beyond the first size check; distinct = distinct (entry point, input)"
 	r := c.Rng
 	w, err := world.HonestWorld(r, baseTime)
 	if err != nil {
@@ -72,6 +73,9 @@ func C10(c *core.Ctx) {
 			c.Add(&core.Case{Class: "QuoteToProto/" + class, Desc: desc, Entry: "abi", Input: core.Ls(core.A(0), core.Bs(raw)), Impl: impl, GT: gt, NonTrivial: nt})
 		} else {
 			c.Add(&core.Case{Class: "QuoteToProto/" + class, SkipModel: true, Impl: core.Ls()})
+		}
+		if qp, err := abi.QuoteToProto(raw); err == nil {
+			noPanic("QuoteToAbiBytes(parsed)/"+class, desc, nt, func() { _, _ = abi.QuoteToAbiBytes(qp) })
 		}
 		if class == "mutated" && r.Intn(3) != 0 {
 			return
@@ -287,6 +291,64 @@ func C10(c *core.Ctx) {
 							return "accepted with a collateral document that was altered after signing"
 						}
 						return ""
+					})
+				}
+			}
+		}
+		// ---- the same replacements inside the signed member, re-signed by the TCB signer the world
+		// trusts: this reaches the code behind the signature check, and the state that
+		// SupportedTcbLevelsFromCollateral works on (queried with well-formed and with structurally
+		// odd messages) ----
+		pkiM, err := world.NewPKI(r, world.PKIOpts{Now: baseTime, Ext: world.RandomSGXExt(r)})
+		if err != nil {
+			panic(err)
+		}
+		fM := world.DefaultQuoteFields(r)
+		fM.TeeTcbSvn[1] = 3 // a platform whose TDX module version selects a module identity
+		wM, err := world.BuildWorld(r, baseTime, pkiM, fM)
+		if err != nil {
+			panic(err)
+		}
+		for wi, wv := range []*world.World{w, wM} {
+			tcbU, qeU, _, _ := wv.URLs()
+			var odd []*pb.QuoteV4
+			if qa, err := abi.QuoteToProto(wv.Quote.Raw); err == nil {
+				base := qa.(*pb.QuoteV4)
+				odd = append(odd, base)
+				for _, n := range []int{0, 1, 2, 15, 17} {
+					m := proto.Clone(base).(*pb.QuoteV4)
+					m.TdQuoteBody.TeeTcbSvn = make([]byte, n)
+					odd = append(odd, m)
+				}
+				m := proto.Clone(base).(*pb.QuoteV4)
+				m.TdQuoteBody = nil
+				odd = append(odd, m)
+				m = proto.Clone(base).(*pb.QuoteV4)
+				m.SignedData.CertificationData.QeReportCertificationData.QeReport = nil
+				odd = append(odd, m, &pb.QuoteV4{})
+			}
+			for _, doc := range []struct {
+				name, member, url string
+				inner             []byte
+			}{{"tcbInfo", "tcbInfo", tcbU, wv.TcbInfo.JSON()}, {"qeIdentity", "enclaveIdentity", qeU, wv.QeIdentity.JSON()}} {
+				for i, m := range mutants(doc.inner) {
+					if !c.Thorough() && i%3 != 0 {
+						continue
+					}
+					body := world.Envelope(doc.member, m.body, world.SignMember(r, wv.PKI.TcbSigner.Key, m.body))
+					sc := scenarioFromWorld(wv, true, false)
+					sc.Resp = cloneResp(sc.Resp)
+					x := sc.Resp[doc.url]
+					x.Body = body
+					sc.Resp[doc.url] = x
+					desc := fmt.Sprintf("world %d: signed %s with %s", wi, doc.name, m.path)
+					runScenarioImplOnly(c, "signed-json/"+doc.name, desc, sc, nil)
+					noPanic("signed-json/SupportedTcbLevelsFromCollateral", desc, true, func() {
+						o, _ := sc.options()
+						_ = verify.RawTdxQuote(sc.Raw, o)
+						for _, q := range odd {
+							_, _, _ = verify.SupportedTcbLevelsFromCollateral(q, o)
+						}
 					})
 				}
 			}
